@@ -57,6 +57,9 @@ type profile struct {
 	persist  time.Duration
 	triggers bool
 	admin    bool // run index creation / drop concurrently
+	limit    bool // run a transaction into the write limit
+	noPhys   bool // do not log the physical projection (large tables)
+	bulk     bool // transactions insert runs of adjacent keys
 	pairs    int  // >0: deterministic op-level interleaving of 2-3 transactions from one goroutine, this many groups
 }
 
@@ -73,6 +76,17 @@ var profiles = map[string]profile{
 			{name: "t1", admin: "create t1 (k,u,v) key(k) index unique(u) index(v)", ncols: 3, dom: []int{4, 3, 2}, opt: []bool{false, true, true}},
 			{name: "t0", admin: "create t0 (a,b) key()", ncols: 2, dom: []int{3, 2}, opt: []bool{true, true}},
 			{name: "t2", admin: "create t2 (p,q,r) key(p,q) index(r)", ncols: 3, dom: []int{2, 2, 2}, opt: []bool{false, true, true}},
+		}},
+	// one transaction that runs into the per-transaction write limit (10000), catches the
+	// error and tries to commit; plus ordinary traffic
+	"limit": {name: "limit", clients: 2, trans: 10, maxOps: 3, readFrac: 30, persist: 5 * time.Millisecond, limit: true,
+		tables: []tableDef{
+			{name: "t1", admin: "create t1 (k,u,v) key(k) index unique(u) index(v)", ncols: 3, dom: []int{6, 3, 2}, opt: []bool{false, true, true}},
+		}},
+	// a table large enough for multi-level btrees (leaf splits at persist); no physical projection
+	"big": {name: "big", clients: 3, trans: 50, maxOps: 3, readFrac: 35, persist: 3 * time.Millisecond, noPhys: true, bulk: true,
+		tables: []tableDef{
+			{name: "b1", admin: "create b1 (k,v) key(k)", ncols: 2, dom: []int{600, 3}, opt: []bool{false, true}},
 		}},
 	// many tables: table infos live in deeper nodes of the persistent metadata map
 	"wide": {name: "wide", clients: 4, trans: 40, maxOps: 3, readFrac: 30, persist: 5 * time.Millisecond, tables: wideTables(40)},
@@ -287,6 +301,30 @@ func scenario(seed int64, sn int) (int, int) {
 		}()
 	} else {
 		db19.MaxAge = 20
+	}
+	if prof.limit {
+		wg.Add(1)
+		go func() {
+			defer wg.Done()
+			r := rand.New(rand.NewSource(seed + 31337))
+			c := beginTran(r, true)
+			if c == nil {
+				return
+			}
+			td := prof.tables[0]
+			row := []int{td.dom[0], 0, 1}
+			c.force = row
+			c.output(td)
+			// updates to an identical record change nothing but count as writes
+			for i := 0; i < 10010 && !c.dead; i++ {
+				c.force = row
+				c.forcePick = true
+				c.forceNew = row
+				c.updateQuiet(td)
+			}
+			c.finish()
+			ntran.Add(1)
+		}()
 	}
 	for c := 0; c < prof.clients && prof.pairs == 0; c++ {
 		wg.Add(1)
@@ -545,6 +583,9 @@ func sink(seq int64, ev string, kv []any) {
 func stateEvent(kind string, c int, oldM, newM *meta.Meta, all bool) *vh.Ev {
 	tabs := []any{}
 	for _, td := range prof.tables {
+		if prof.noPhys {
+			break
+		}
 		ti := newM.GetRoInfo(td.name)
 		if ti == nil {
 			continue
@@ -1052,6 +1093,15 @@ func (c *client) op() {
 		}
 		return
 	}
+	if prof.bulk && c.r.Intn(4) == 0 {
+		// a run of adjacent keys
+		start := 1 + c.r.Intn(td.dom[0]-20)
+		for i := 0; i < 5+c.r.Intn(12) && !c.dead; i++ {
+			c.force = []int{start + i, c.r.Intn(td.dom[1] + 1)}
+			c.output(td)
+		}
+		return
+	}
 	switch {
 	case n < 15:
 		c.lookup(td)
@@ -1119,6 +1169,8 @@ func classify(e any) string {
 	switch {
 	case strings.Contains(s, "trigger threw (verif)"):
 		return "trigger"
+	case strings.Contains(s, "too many writes"), strings.Contains(s, "too many reads"):
+		return "limit"
 	case strings.Contains(s, "duplicate key"):
 		return "dup"
 	case strings.Contains(s, "blocked by foreign key"):
@@ -1135,7 +1187,7 @@ func (c *client) guard(fn func()) (res string) {
 	defer func() {
 		if e := recover(); e != nil {
 			res = classify(e)
-			if res == "aborted" {
+			if res == "aborted" || res == "limit" {
 				c.dead = true
 			}
 			if strings.HasPrefix(res, "other") {
@@ -1396,6 +1448,29 @@ func (c *client) update(td tableDef) {
 	}
 	c.armTrigger()
 	res := c.guard(func() { c.ut.Update(c.th, td.name, dr.Off, recOf(nw)) })
+	tr.Emit(vh.E("Update", "t", c.id, "tbl", td.name, "old", old, "new", nw,
+		"oldlen", recLen(old), "newlen", recLen(nw), "res", res, "trig", c.trigs()))
+}
+
+// updateQuiet: update of a row found by an unlogged point lookup (the lookup is still a
+// real call; only the Update event is logged). Used by the write-limit scenario.
+func (c *client) updateQuiet(td tableDef) {
+	ts := c.schema(td)
+	ix := c.keyIndex(ts)
+	row := c.randRow(td)
+	c.forcePick = false
+	nw := c.forceNew
+	c.forceNew = nil
+	var dr *core.DbRec
+	res := c.guard(func() { dr = c.lookupRec(td, ix, keyOfVals(ts, ix, row)) })
+	if res != "ok" || dr == nil {
+		tr.Emit(vh.E("Lookup", "t", c.id, "tbl", td.name, "ix", ix+1, "key", keyVals(ts, ix, row), "rows", []any{}, "res", res))
+		c.dead = true
+		return
+	}
+	old := rowOf(dr.Record, td.ncols)
+	c.armTrigger()
+	res = c.guard(func() { c.ut.Update(c.th, td.name, dr.Off, recOf(nw)) })
 	tr.Emit(vh.E("Update", "t", c.id, "tbl", td.name, "old", old, "new", nw,
 		"oldlen", recLen(old), "newlen", recLen(nw), "res", res, "trig", c.trigs()))
 }
